@@ -876,20 +876,21 @@ def ref_decode(body):
 
 
 def ob_literals(n):
-    """string literal bodies in the program TEXT are symbolic: escapes are decoded in '...' and not in '''...'''"""
+    """string literal bodies in the program TEXT are symbolic: escapes are decoded in '...' / f'...' and not in '''...''' / f'''...'''"""
     def h():
         body = sym_str(n, 'body', alphabet="a\\n'07")
         multi = choose(2, 'triple')
+        fp = ['', 'f'][choose(2, 'fstring')]       # an f-string without @name@ denotes the same string: the prefix must not change escape handling
         if multi:
             if "'''" in body if isinstance(body, str) else False: return
-            text = "x = '''" + body + "'''\n"
+            text = "x = " + fp + "'''" + body + "'''\n"
             # the body must not contain the terminator and must not end with a quote
             cs = chars_of(body)
             for i in range(len(cs)):
                 if decide(ceq(cs[i], 39)): cover('quote-in-triple'); return
             differential([('assign', 'x', ('mstr', body))], {}, text=text)
         else:
-            text = "x = '" + body + "'\n"
+            text = "x = " + fp + "'" + body + "'\n"
             cs = chars_of(body); i = 0; ok = True
             while i < len(cs):          # the reference lexer: a quote ends the literal unless escaped; a trailing backslash escapes the closing quote
                 if decide(ceq(cs[i], 92)):
